@@ -277,6 +277,21 @@ def handleRenorm (j : Json) : Except String Json := do
       | none => Json.null
       | some ts => Json.arr (ts.map tripleJson).toArray).toArray)]
 
+def handleSymVerdict (j : Json) : Except String Json := do
+  let comps ← (← (← j.getObjVal? "comps").getArr?).toList.mapM fun c => do
+    (← c.getArr?).toList.mapM fun v => do
+      let k ← (← v.getArrVal? 0).getStr?
+      let s ← (← v.getArrVal? 1).getStr?
+      let us ← (← (← v.getArrVal? 2).getArr?).toList.mapM (·.getStr?)
+      pure ((k, s, us) : Sym.Var)
+  let net ← (← (← j.getObjVal? "net_names").getArr?).toList.mapM (·.getStr?)
+  let params := (Sym.merge "param" comps).map (·.1)
+  let consts := (Sym.merge "constant" comps).map (·.1)
+  let v := Sym.firstUndeclared (Sym.builtins ++ net ++ consts ++ params) (Sym.merge "derived" comps)
+  pure <| Json.mkObj [("undeclared", match v with | some x => Json.str x | none => Json.null),
+    ("params", Json.arr (params.map Json.str).toArray),
+    ("deriveds", Json.arr ((Sym.merge "derived" comps).map fun p => Json.str p.1).toArray)]
+
 def handle (line : String) : String :=
   match Json.parse line with
   | .error e => (Json.mkObj [("error", s!"json: {e}")]).compress
@@ -293,6 +308,7 @@ def handle (line : String) : String :=
       | "decode" => handleDecode j
       | "species" => handleSpecies j
       | "renorm" => handleRenorm j
+      | "symverdict" => handleSymVerdict j
       | "encode_native" => handleEncodeNative j
       | "kromebound" => handleKrome j
       | "dup" => handleDup j
